@@ -123,7 +123,7 @@ def gen(run, binary, tmp):
             yield {'placement': pl, 'files': [400 * 1024 * 1024], 'sparse': True, 'capacity': None, 'big': True,
                    'fault': {'kind': 'efbig', 'blocks': 2048}}
         yield {'placement': 'LL', 'files': [400 * 1024 * 1024], 'sparse': True, 'capacity': None, 'big': True,
-               'fault': {'kind': 'cmd_error', 'k': 3}}
+               'fault': {'kind': 'write_fail', 'k': 1}}
 
 
 def fault_happened(sc, obs):
@@ -225,7 +225,7 @@ def model_line(sc, fixed):
     pre = 2
     dplan = ['0'] * (pre + nchunks)
     gplan = ['0'] * len(sc['files'])
-    if fl['kind'] == 'cmd_error' and fl['k'] < len(dplan):
+    if fl['kind'] == 'cmd_error' and fl['k'] < pre:
         dplan[fl['k']] = '1'
     if fl['kind'] == 'write_fail' and fl['k'] < nchunks:
         dplan[pre + fl['k']] = '1'
